@@ -875,7 +875,29 @@ std::size_t CppCheck::calculateHash(const Preprocessor& preprocessor, const std:
         toolinfo << a.args;
     }
     toolinfo << mSettings.premiumArgs;
-    // TODO: do we need to add more options?
+    // further options which have an effect on the results of the analysis
+    toolinfo << (mSettings.certainty.isEnabled(Certainty::inconclusive) ? 'i' : ' ');
+    toolinfo << (mSettings.checks.isEnabled(Checks::unusedFunction) ? 'u' : ' ');
+    toolinfo << (mSettings.checks.isEnabled(Checks::missingInclude) ? 'm' : ' ');
+    for (const std::string &u : mSettings.userUndefs)
+        toolinfo << "-U" << u << ';';
+    toolinfo << mSettings.standards.getC() << ';' << mSettings.standards.getCPP() << ';';
+    toolinfo << mSettings.platform.toString() << ';'
+             << static_cast<int>(mSettings.platform.char_bit) << ';'
+             << mSettings.platform.sizeof_bool << ';'
+             << mSettings.platform.sizeof_short << ';'
+             << mSettings.platform.sizeof_int << ';'
+             << mSettings.platform.sizeof_long << ';'
+             << mSettings.platform.sizeof_long_long << ';'
+             << mSettings.platform.sizeof_float << ';'
+             << mSettings.platform.sizeof_double << ';'
+             << mSettings.platform.sizeof_long_double << ';'
+             << mSettings.platform.sizeof_wchar_t << ';'
+             << mSettings.platform.sizeof_size_t << ';'
+             << mSettings.platform.sizeof_pointer << ';'
+             << static_cast<int>(mSettings.platform.defaultSign) << ';';
+    for (const std::string &l : mSettings.libraries)
+        toolinfo << "--library=" << l << ';';
     mSuppressions.nomsg.dump(toolinfo, filePath);
     return preprocessor.calculateHash(toolinfo.str());
 }
